@@ -48,7 +48,8 @@ Inductive ecode :=
 | EC_UnterminatedCDATASection | EC_HexRadixMustBeLowerCase | EC_DeclStringRep | EC_DeclStringsInWrongOrder
 | EC_XMLDeclMustBeLowerCase | EC_BadDigitForRadix | EC_EndedWithTagsOnStack | EC_CDATAOutsideOfContent
 | EC_Unexpected2ndSurrogateChar | EC_NoPIStartsWithXML | EC_XMLDeclMustBeFirst | EC_XMLVersionRequired
-| EC_ColonNotLegalWithNS | EC_XMLException_Fatal.
+| EC_ColonNotLegalWithNS | EC_XMLException_Fatal
+| EC_RecursiveEntity | EC_PartialMarkupInEntity | EC_PartialTagMarkupError.
 
 Definition all_ecodes : list ecode :=
   [ EC_ExpectedCommentOrCDATA; EC_ExpectedAttrName; EC_ExpectedEqSign; EC_ExpectedElementName;
@@ -63,7 +64,8 @@ Definition all_ecodes : list ecode :=
     EC_UnterminatedCDATASection; EC_HexRadixMustBeLowerCase; EC_DeclStringRep; EC_DeclStringsInWrongOrder;
     EC_XMLDeclMustBeLowerCase; EC_BadDigitForRadix; EC_EndedWithTagsOnStack; EC_CDATAOutsideOfContent;
     EC_Unexpected2ndSurrogateChar; EC_NoPIStartsWithXML; EC_XMLDeclMustBeFirst; EC_XMLVersionRequired;
-    EC_ColonNotLegalWithNS; EC_XMLException_Fatal ].
+    EC_ColonNotLegalWithNS; EC_XMLException_Fatal; EC_RecursiveEntity; EC_PartialMarkupInEntity;
+    EC_PartialTagMarkupError ].
 
 Definition code_num (e : ecode) : N :=
   match e with
@@ -97,6 +99,8 @@ Definition code_num (e : ecode) : N :=
   | EC_NoPIStartsWithXML => XMLErrs_NoPIStartsWithXML | EC_XMLDeclMustBeFirst => XMLErrs_XMLDeclMustBeFirst
   | EC_XMLVersionRequired => XMLErrs_XMLVersionRequired | EC_ColonNotLegalWithNS => XMLErrs_ColonNotLegalWithNS
   | EC_XMLException_Fatal => XMLErrs_XMLException_Fatal
+  | EC_RecursiveEntity => XMLErrs_RecursiveEntity | EC_PartialMarkupInEntity => XMLErrs_PartialMarkupInEntity
+  | EC_PartialTagMarkupError => XMLErrs_PartialTagMarkupError
   end.
 
 (* ---- events (the internal XMLDocumentHandler stream, character data accumulated per run between markup) *)
